@@ -72,6 +72,37 @@ Proof.
   split; vm_compute; reflexivity.
 Qed.
 
+(* WHICH token does a diagnostic name?  The statement "the token named is the first token that cannot
+   continue a sentence of the grammar" is FALSE of the model and of the real code (replay
+   findings/C12-diagnostic-token.go.txt): in a list of associations, after "," (or after a newline in the
+   multi-line form) a literal that is not followed by ":" is blamed ITSELF — parseAssociation puts the key
+   back and hands the key token on — although the tokens up to and including it are a prefix of an
+   accepted text; the first token that cannot continue is the one BEHIND it.  The diagnostic is at the
+   start of the association that could not be completed: never later than the first offending token
+   plus its key, but one token earlier than asked.  What IS proved: a token on which the parser stops at
+   first sight — an Error token (C10_accepted_source_has_no_error_token, ErrorTokens.v), a literal
+   without an exact value at any position of a derivation tree (C11_inexact_literal_rejected_anywhere,
+   ParserPrefix.v) — is blamed itself, and the tokens in front of it are never blamed. *)
+Theorem C12_diagnostic_is_the_first_offending_token_refuted :
+  exists src src' pre t post post' v,
+    lex src = pre ++ t :: post /\ parse_source (fun _ => None) (default_crank []) src = PSyntax t /\
+    lex src' = pre ++ t :: post' /\ parse_source (fun _ => None) (default_crank []) src' = PValue v.
+Proof.
+  exists (zs "[1: 2, 3](Catalog)"), (zs "[1: 2, 3: 4](Catalog)").
+  eexists [_; _; _; _; _], _, _, _, _. split; [vm_compute; reflexivity|].
+  split; [vm_compute; reflexivity|]. split; vm_compute; reflexivity.
+Qed.
+Example C12_ex_diagnostic_tokens :
+  parse_source (fun _ => None) (default_crank []) (zs "[1: 2, 3](Catalog)") = PSyntax (mkTok TInteger (zs "3") 1 8) /\
+  parse_source (fun _ => None) (default_crank []) (zs "[
+1: 2
+3
+](Catalog)") = PSyntax (mkTok TInteger (zs "3") 3 1) /\
+  parse_source (fun _ => None) (default_crank []) (zs "[1: 2, 3 $](Catalog)") = PSyntax (mkTok TError (zs "$") 1 10) /\
+  parse_source (fun _ => None) (default_crank []) (zs "[1: 2, 99999999999999999999: 4](Catalog)")
+  = PSyntax (mkTok TInteger (zs "99999999999999999999") 1 8).
+Proof. vm_compute. repeat split; reflexivity. Qed.
+
 (* pushback_bound: the push-back stack never exceeds its capacity, for every token list *)
 Theorem C12_pushback_bound : forall fparse crank ts, parse_tokens fparse crank ts <> PRuntime RPushOverflow.
 Proof. exact pushback_bound_tokens. Qed.
@@ -197,6 +228,7 @@ Print Assumptions C12_lex_token_text.
 Print Assumptions C12_parse_total.
 Print Assumptions C12_parse_total_strict.
 Print Assumptions C12_parse_total_value_or_syntax_refuted_before_fix.
+Print Assumptions C12_diagnostic_is_the_first_offending_token_refuted.
 Print Assumptions C12_pushback_bound.
 Print Assumptions C12_never_out_of_fuel.
 Print Assumptions C12_never_reads_behind_eof.
